@@ -65,18 +65,13 @@ def block_codec(hb: bytes, body: bytes, big: int) -> bool:
     return fin(dec is not None and _same(dec.header, refe37.fields(list(hb))) and dec.data == pl)
 
 
-class _Rx:
-    """the attributes HsmsProtocol._process_received_data / Protocol._on_connection_data_received touch"""
-    _process_received_data = HsmsProtocol._process_received_data
-    _on_connection_data_received = Protocol._on_connection_data_received
-
-
 def _rx(initial):
-    p = _Rx()
-    q = ByteQueue()
+    """a real HsmsProtocol whose receive buffer starts with `initial`; blocking waits park, queued blocks are recorded"""
+    from rigs import hsms as hrig
+    p, c, delivered = hrig.make_protocol()
+    q = p._receive_buffer
     q._buffer_lock = ParkCondition()
     q._buffer = bytearray(initial)
-    p._receive_buffer = q
     p._thread = BlockSink()
     return p
 
